@@ -1,13 +1,19 @@
 (* Correspondence harness for C07, evaluated by vm_compute. Depends on Model/
-   only. A case is (inputs, outputs observed on the Go code). Verdict bits:
-   1 = the model's outputs differ from the implementation's,
+   only. A case is (inputs, outputs observed on the Go code, heap part).  The
+   heap part is a sequence of mutations applied to the cells of the original
+   [a] (cells numbered as Model/Heap.v alloc_tree numbers them) after copying
+   it, and the four copies (Deep, DeepPreservingLeaves, Shallow, Slim) read
+   after the mutations; the heap model must predict each reading exactly, i.e.
+   which mutations are visible through which copy.  Verdict bits:
+   1 = the model's outputs differ from the implementation's (value model or
+       heap model),
    2 = check_C07 fails on the implementation's outputs,
    8 = an input is not a valid tree (harness bug). *)
 From Coq Require Import List Bool Arith String.
 Import ListNotations.
-From Mv Require Import Common.Bytes Model.Entry Model.DiffApply.
+From Mv Require Import Common.Bytes Model.Entry Model.DiffApply Model.Heap.
 
-Definition dcase := (c07_in * c07_out)%type.
+Definition dcase := (c07_in * c07_out * (list mutation * list oentry))%type.
 
 (* short constructors printed by the Go harness *)
 Definition mk (p : path) (o n : oentry) : change := {| cpath := p; cold := o; cnew := n |}.
@@ -20,9 +26,10 @@ Definition Out7 (d : list change) (ap : apply_full) (ds pd : list change) (s : o
      o_applied2 := ap2; o_a_after := a'; o_b_after := b' |}.
 
 Definition dverdict (c : dcase) : nat :=
-  let '(i, o) := c in
+  let '(i, o, (ms, seen)) := c in
   if wf_C07 i then
-    (if corr_C07 i o then 0 else 1) + (if check_C07 i o then 0 else 2)
+    (if corr_C07 i o && heap_check (i_a i) ms seen then 0 else 1)
+    + (if check_C07 i o then 0 else 2)
   else 8.
 
 Fixpoint da_failures (k : nat) (cs : list dcase) : list (nat * nat) :=
